@@ -606,13 +606,31 @@ Qed.
 
 (* ---- strict mode ---- *)
 
-(* the gold text of a line, when the word separator is defined *)
-Definition gold_str (sep : separator) (w : str) (line : str) : str :=
-  norm_ws (replace_all w [sp] (replace_all (osep (s_phone sep)) [] (replace_all (osep (s_syll sep)) [] line))).
+(* the gold text of a line: gold_line never raises, whatever the separator *)
+Definition gold_str (sep : separator) (line : str) : str :=
+  norm_ws (join [sp] (map (replace_all [sp] [])
+    (match s_word sep with
+     | Some w => split_on w (replace_all (osep (s_phone sep)) [] (replace_all (osep (s_syll sep)) [] line))
+     | None => split_ws (replace_all (osep (s_phone sep)) [] (replace_all (osep (s_syll sep)) [] line))
+     end))).
 
-Lemma gold_line_some : forall (sep : separator) (w : str) (line : str),
-  s_word sep = Some w -> gold_line sep line = Ok (gold_str sep w line).
-Proof. intros sep w line Hw. unfold gold_line. rewrite Hw. reflexivity. Qed.
+Lemma gold_line_ok : forall (sep : separator) (line : str),
+  gold_line sep line = Ok (gold_str sep line).
+Proof. reflexivity. Qed.
+
+Lemma gold_str_some : forall (sep : separator) (w : str) (line : str),
+  s_word sep = Some w ->
+  gold_str sep line =
+  norm_ws (join [sp] (map (replace_all [sp] [])
+    (split_on w (replace_all (osep (s_phone sep)) [] (replace_all (osep (s_syll sep)) [] line))))).
+Proof. intros sep w line Hw. unfold gold_str. rewrite Hw. reflexivity. Qed.
+
+Lemma gold_str_none : forall (sep : separator) (line : str),
+  s_word sep = None ->
+  gold_str sep line =
+  norm_ws (join [sp] (map (replace_all [sp] [])
+    (split_ws (replace_all (osep (s_phone sep)) [] (replace_all (osep (s_syll sep)) [] line))))).
+Proof. intros sep line Hw. unfold gold_str. rewrite Hw. reflexivity. Qed.
 
 Lemma mapM_total : forall (A B : Type) (f : A -> result B) (g : A -> B) (l : list A),
   (forall x : A, f x = Ok (g x)) -> mapM f l = Ok (map g l).
@@ -621,20 +639,18 @@ Proof.
   cbn [mapM map]. rewrite H, IH. reflexivity.
 Qed.
 
-Theorem gold_total : forall (text : list str) (sep : separator) (w : str),
-  s_word sep = Some w -> gold text sep = Ok (filter nonempty (map (gold_str sep w) text)).
+(* for EVERY separator *)
+Theorem gold_total : forall (text : list str) (sep : separator),
+  gold text sep = Ok (filter nonempty (map (gold_str sep) text)).
 Proof.
-  intros text sep w Hw. unfold gold.
-  rewrite (mapM_total _ _ (gold_line sep) (gold_str sep w) text (fun x => gold_line_some sep w x Hw)).
+  intros text sep. unfold gold.
+  rewrite (mapM_total _ _ (gold_line sep) (gold_str sep) text (gold_line_ok sep)).
   reflexivity.
 Qed.
 
-Theorem gold_no_word_sep : forall (text : list str) (sep : separator),
-  s_word sep = None -> text <> [] -> gold text sep = Raise TypeError.
-Proof.
-  intros text sep Hw Hne. destruct text as [|x r]; [congruence|].
-  unfold gold. cbn [mapM]. unfold gold_line. rewrite Hw. reflexivity.
-Qed.
+Theorem gold_never_raises : forall (text : list str) (sep : separator) (e : exn),
+  gold text sep <> Raise e.
+Proof. intros text sep e. rewrite gold_total. discriminate. Qed.
 
 (* whitespace-only strings *)
 Lemma lstrip_all_space : forall s : str, forallb is_space s = true -> lstrip s = [].
@@ -700,31 +716,78 @@ Proof.
   - apply replace_go_space; assumption.
 Qed.
 
-(* a blank line has an empty gold line (which [gold] then filters out) *)
-Lemma gold_str_blank : forall (sep : separator) (w : str) (raw : str),
-  strip raw = [] -> gold_str sep w raw = [].
+Lemma split_go_space : forall (x s : str) (k : nat) (acc : str),
+  forallb is_space s = true -> forallb is_space acc = true ->
+  forallb (forallb is_space) (split_go x s k acc) = true.
 Proof.
-  intros sep w raw H. apply strip_nil_iff in H. unfold gold_str, norm_ws.
-  assert (E : strip (replace_all w [sp] (replace_all (osep (s_phone sep)) []
-                    (replace_all (osep (s_syll sep)) [] raw))) = []).
-  { apply strip_nil_iff. repeat (apply replace_all_space; [reflexivity|]). exact H. }
-  rewrite E. reflexivity.
+  intros x s. induction s as [|c s IH]; intros k acc Hs Hacc.
+  - cbn [split_go forallb]. rewrite forallb_rev, Hacc. reflexivity.
+  - cbn [forallb] in Hs. apply andb_prop in Hs as [Hc Hs]. cbn [split_go].
+    destruct k as [|k]; [|exact (IH k acc Hs Hacc)].
+    destruct (prefix_b x (c :: s)).
+    + cbn [forallb]. rewrite forallb_rev, Hacc. cbn [andb]. apply IH; [exact Hs|reflexivity].
+    + apply IH; [exact Hs|]. cbn [forallb]. rewrite Hc. exact Hacc.
 Qed.
 
-Theorem gold_line_blank : forall (sep : separator) (w : str) (raw : str),
-  s_word sep = Some w -> strip raw = [] -> gold_line sep raw = Ok [].
+Lemma split_ws_space : forall s : str, forallb is_space s = true -> split_ws s = [].
 Proof.
-  intros sep w raw Hw H. rewrite (gold_line_some sep w raw Hw), (gold_str_blank sep w raw H). reflexivity.
+  unfold split_ws. induction s as [|c s IH]; intro Hs; [reflexivity|].
+  cbn [forallb] in Hs. apply andb_prop in Hs as [Hc Hs]. cbn [split_ws_go]. rewrite Hc. exact (IH Hs).
 Qed.
 
-Theorem gold_ignores_blank_lines : forall (text : list str) (sep : separator) (w : str),
-  s_word sep = Some w ->
+Lemma join_space : forall (x : str) (l : list str),
+  forallb is_space x = true -> forallb (forallb is_space) l = true ->
+  forallb is_space (join x l) = true.
+Proof.
+  intros x l Hx. induction l as [|y r IH]; intro Hl; [reflexivity|].
+  cbn [forallb] in Hl. apply andb_prop in Hl as [Hy Hr].
+  destruct r as [|z r]; [exact Hy|].
+  change (join x (y :: z :: r)) with (y ++ x ++ join x (z :: r)).
+  rewrite !forallb_app, Hy, Hx, (IH Hr). reflexivity.
+Qed.
+
+Lemma map_replace_space : forall (old new : str) (l : list str),
+  forallb is_space new = true -> forallb (forallb is_space) l = true ->
+  forallb (forallb is_space) (map (replace_all old new) l) = true.
+Proof.
+  intros old new l Hn. induction l as [|y r IH]; intro Hl; [reflexivity|].
+  cbn [forallb] in Hl. apply andb_prop in Hl as [Hy Hr].
+  cbn [map forallb]. rewrite (replace_all_space old new y Hn Hy), (IH Hr). reflexivity.
+Qed.
+
+(* a blank line (any whitespace, not only spaces) has an empty gold line, which [gold] then
+   filters out: the pieces of a whitespace-only string are whitespace-only, and norm_ws strips them *)
+Lemma gold_str_blank : forall (sep : separator) (raw : str),
+  strip raw = [] -> gold_str sep raw = [].
+Proof.
+  intros sep raw H. apply strip_nil_iff in H. unfold gold_str, norm_ws.
+  assert (H2 : forallb is_space (replace_all (osep (s_phone sep)) []
+                 (replace_all (osep (s_syll sep)) [] raw)) = true).
+  { repeat (apply replace_all_space; [reflexivity|]). exact H. }
+  destruct (s_word sep) as [w|].
+  - assert (E : strip (join [sp] (map (replace_all [sp] [])
+                  (split_on w (replace_all (osep (s_phone sep)) []
+                     (replace_all (osep (s_syll sep)) [] raw))))) = []).
+    { apply strip_nil_iff. apply join_space; [reflexivity|].
+      apply map_replace_space; [reflexivity|].
+      unfold split_on. apply split_go_space; [exact H2|reflexivity]. }
+    rewrite E. reflexivity.
+  - rewrite (split_ws_space _ H2). reflexivity.
+Qed.
+
+Theorem gold_line_blank : forall (sep : separator) (raw : str),
+  strip raw = [] -> gold_line sep raw = Ok [].
+Proof.
+  intros sep raw H. rewrite gold_line_ok, (gold_str_blank sep raw H). reflexivity.
+Qed.
+
+Theorem gold_ignores_blank_lines : forall (text : list str) (sep : separator),
   gold text sep = gold (filter (fun l => nonempty (strip l)) text) sep.
 Proof.
-  intros text sep w Hw. rewrite !(gold_total _ sep w Hw). f_equal.
+  intros text sep. rewrite !gold_total. f_equal.
   induction text as [|x r IH]; [reflexivity|].
   cbn [map filter]. destruct (strip x) eqn:E; cbn [nonempty].
-  - rewrite (gold_str_blank sep w x E). cbn [nonempty]. exact IH.
+  - rewrite (gold_str_blank sep x E). cbn [nonempty]. exact IH.
   - cbn [map filter]. rewrite IH. reflexivity.
 Qed.
 
@@ -751,7 +814,7 @@ Theorem prep_main_strict_same_lines : forall (text : list str) (sep : separator)
   g = gold text sep /\
   outs = map (prepared_of sep u) kept /\
   Forall (fun l => is_valid (strip l) sep cp = true) kept /\
-  (forall w : str, s_word sep = Some w -> gold text sep = gold kept sep).
+  gold text sep = gold kept sep.
 Proof.
   intros text sep u cp outs g H kept. unfold prep_main, prepare in H.
   destruct (prepare_loop text sep u cp false 0) as [os e] eqn:E. cbn [snd] in H.
@@ -768,7 +831,7 @@ Proof.
     destruct (nonempty (strip x)); [|split; [reflexivity|exact IH2]].
     split; [reflexivity|]. constructor; [exact (G2 eq_refl)|exact IH2]. }
   destruct G as [G1 G2]. split; [exact G1|]. split; [exact G2|].
-  intros w Hw. exact (gold_ignores_blank_lines text sep w Hw).
+  exact (gold_ignores_blank_lines text sep).
 Qed.
 
 (* the special case asked for: no blank lines, everything goes to both outputs *)
@@ -799,8 +862,8 @@ Proof.
 Qed.
 
 (* without a word separator and with only blank lines, strict mode ends normally with no
-   output, but the gold computation itself raises TypeError *)
+   output, and the gold is empty as well (gold no longer raises) *)
 Example strict_blank_no_word_sep :
   prep_main [[sp]] {| s_phone := None; s_syll := None; s_word := None |} UPhone false false
-  = (([], PDone), Some (Raise TypeError)).
+  = (([], PDone), Some (Ok [])).
 Proof. vm_compute. reflexivity. Qed.
